@@ -22,7 +22,12 @@ for pid in ids:
         level_claimed=dict(category="model_checking",
                            text=cfg.get("level_text", "Bounded model checking of the real code: the harnesses are compiled by Kani from an overlay of /repo's working tree and every obligation is decided by CBMC/CaDiCaL for all values of the symbolic inputs within the stated bounds (unwinding assertions on); a counterexample is replayed natively before it is reported."),
                            design_ref=cfg.get("design_ref", "DESIGN.md section 4 / " + pid)),
-        level_note=cfg.get("level_note", "") or ("Bounds: " + cfg.get("bounds", "") + " Trusted: rustc->Kani->CBMC translation, CaDiCaL, overlay edits O1-O4; one configuration (default features, x86_64)."),
+        level_note=cfg.get("level_note", "") or (
+            "Bounds: " + cfg.get("bounds", "") + ". "
+            + ("Assumptions: " + "; ".join(cfg["assumptions"]) + ". " if cfg.get("assumptions") else "")
+            + ("Stubs: " + "; ".join(cfg["stubs"]) + ". " if cfg.get("stubs") else "")
+            + "Trusted base: " + "; ".join(cfg.get("trusted_base", ["rustc->Kani->CBMC translation", "CaDiCaL", "overlay edits O1-O4 (DESIGN.md 2.1)"]))
+            + "; one configuration (default features, x86_64). Counterexamples are replayed natively before they are reported, except for `_nr` harnesses (DESIGN.md 0a.3)."),
         technique=cfg.get("technique", "solver-based bounded model checking (Kani/CBMC SAT) of the real code"),
     ))
 man = dict(
